@@ -4,7 +4,7 @@ from ..rules import drivers, canon, conv, dispatch
 META = {
     "title": "The DMRG solver finds the ground state of the final Hamiltonian",
     "technique": "static analysis: per-path event analysis of the DMRG sweep (bath pairing/linkage, centre flag, "
-                 "operands), guard analysis of the convergence gate, call-site argument provenance",
+                 "operands), guard analysis of the convergence gate, call-site argument provenance; path conditions of the sweep boundaries and of the restart",
     "design_ref": "DESIGN.md §5 C09",
     "explanation": "BATHS: each DMRG move pushes one environment and pops the opposite one, built from the factor "
                    "just left behind, and moves the sweep index accordingly. CENTER: the centre recorded after the "
